@@ -89,8 +89,9 @@ DenExport(s) == LET d == Den(s) IN
   [n \in CollNames(s) |-> LET bs == BoxSeq(NBOf(s, n)) IN [i \in DOMAIN bs |-> d[n][bs[i]]]]
 DepsExport(s) ==
   [n \in LayerNames(s) |-> LET L == LayerOf(s, n) bs == OutBlockSeq(L) IN [i \in DOMAIN bs |-> Deps(L, bs[i])]]
-Export(s) == [st |-> s, den |-> DenExport(s), deps |-> DepsExport(s),
-              reqs |-> {[req |-> r, cull |-> Cull(s, r)] : r \in ReqFamily(s)}]
+Export(s) == LET ps == Prep(s) IN
+             [st |-> s, den |-> DenExport(ps), deps |-> DepsExport(ps),
+              reqs |-> {[req |-> r, cull |-> Cull(ps, r)] : r \in ReqFamily(ps)}]
 
 Init == /\ st \in {[leaves |-> lc, consts |-> Consts, layers |-> <<>>] : lc \in LeafConfs}
         /\ out = ""
@@ -105,18 +106,21 @@ Next == /\ Len(st.layers) < MaxLayers
 \* ---------------------------------------------------------------- design check
 WellFormed == StackOK(st)
 \* every dependency is a block that exists (in particular: coordinate 0 on a one-block axis)
-DepsInRange == \A i \in DOMAIN st.layers : \A c \in OutBlocks(st.layers[i]) : Deps(st.layers[i], c) \subseteq AllKeys(st)
+DepsInRange == LET ps == Prep(st) IN
+  \A i \in DOMAIN ps.layers : \A c \in OutBlocks(ps.layers[i]) : Deps(ps.layers[i], c) \subseteq AllKeys(ps)
 \* dependencies only point downwards
 DepsAcyclic == \A i \in DOMAIN st.layers : \A c \in OutBlocks(st.layers[i]) :
                  \A k \in Deps(st.layers[i], c) : k.n \notin {st.layers[j].out : j \in i..Len(st.layers)}
 \* Cull is the least closed set: contains the request, closed, and distributes over union
 CullLeast == Len(st.layers) > 0 =>
-  \A r \in ReqFamily(st) :
-     LET C == Cull(st, r) IN
-     /\ r \subseteq C /\ C \subseteq AllKeys(st)
-     /\ \A k \in C : DepsOfKey(st, k) \subseteq C
-     /\ C = UNION {Cull(st, {k}) : k \in r}
+  LET ps == Prep(st) IN
+  \A r \in ReqFamily(ps) :
+     LET C == Cull(ps, r) IN
+     /\ r \subseteq C /\ C \subseteq AllKeys(ps)
+     /\ \A k \in C : DepsOfKey(ps, k) \subseteq C
+     /\ C = UNION {Cull(ps, {k}) : k \in r}
 \* the number of output blocks is the product of the dims of the output indices
 OutCount == \A i \in DOMAIN st.layers :
-              LET L == st.layers[i] IN Cardinality(OutBlocks(L)) = Len(OutBlockSeq(L))
+              LET L == st.layers[i] IN /\ Cardinality(OutBlocks(L)) = Len(OutBlockSeq(L))
+                                       /\ NumKeys(st) = Cardinality(AllKeys(st))
 =============================================================================
